@@ -16,18 +16,22 @@ EXTENDS Integers, Sequences, FiniteSets, TLC, Json
 VARIABLES picked
 vars == <<picked>>
 
-States  == {"base", "wdOther", "noDeleg", "operator"}
+\* "slashed": like base, but the validator was slashed while S is unbonding from it, S holds liquid tokens
+\* (a registered coin/token pair) and an unregistered denomination
+States  == {"base", "wdOther", "noDeleg", "operator", "slashed"}
 ValsC   == {"V1", "V2", "unknown", "badbech32"}
 SpendAmts == {"0", "1", "small", "eqDeleg", "gtDeleg", "eqBal", "gtBal", "2^255", "max"}
 
-Case(st, m, v, a, h) == [state |-> st, m |-> m, val |-> v, amt |-> a, height |-> h]
+Case(st, m, v, a, h) == [state |-> st, m |-> m, val |-> v, amt |-> a, height |-> h, to |-> "T"]
 
 Cases ==
     {Case(st, m, v, a, "ok") : st \in States \ {"operator"}, m \in {"delegate", "undelegate", "redelegate"}, v \in ValsC, a \in SpendAmts}
-    \cup {Case(st, "cancelUnbonding", v, a, h) : st \in {"base", "wdOther"}, v \in {"V1", "V2", "unknown"},
+    \cup {Case(st, "cancelUnbonding", v, a, h) : st \in {"base", "wdOther", "slashed"}, v \in {"V1", "V2", "unknown"},
                                                   a \in {"0", "1", "ubd", "small", "2^255"}, h \in {"ok", "wrong"}}
     \cup {Case(st, "withdrawRewards", v, "0", "ok") : st \in States, v \in ValsC}
     \cup {Case(st, m, "V1", "0", "ok") : st \in States, m \in {"claimRewards", "setWithdrawAddress", "withdrawCommission"}}
+    \* resetting the withdraw address to the delegator itself
+    \cup {[Case(st, "setWithdrawAddress", "V1", "0", "ok") EXCEPT !.to = "self"] : st \in States}
 
 None == [tag |-> "none"]
 Init == picked = None
@@ -50,4 +54,5 @@ FieldOrder == <<"deleg", "ubd", "wd", "rewards", "commission", "grants", "supply
 FirstField(diff) == LET idx == {i \in 1..Len(FieldOrder) : FieldOrder[i] \in diff} IN
                     IF idx = {} THEN "other" ELSE FieldOrder[CHOOSE i \in idx : \A j \in idx : i <= j]
 CaseClass(c) == c.m \o "|state=" \o c.state \o ",val=" \o c.val \o ",amt=" \o c.amt \o (IF c.m = "cancelUnbonding" THEN ",height=" \o c.height ELSE "")
+                    \o (IF c.m = "setWithdrawAddress" /\ c.to # "T" THEN ",to=" \o c.to ELSE "")
 =============================================================================
